@@ -43,6 +43,7 @@ def onPanic (p : Prog) (pe : Panic × Env) : Prog × String :=
   ({ p with env := pe.2 }, fin p.env pe.2 ("panic:" ++ showPanic pe.1))
 
 def stepKV (p : Prog) : List String → Prog × String
+  | ["mon.mstrace", _] => (p, "done")   -- implementation-side monitor (the trace of a branched multistore)
   | ["new", "inf"] => (newProg Posmint.KV.maxUint64, "ok")   -- the infinite meter: only the uint64 overflow can stop it
   | ["new", lim] => match lim.toNat? with
     | some l => (newProg l, "ok")
